@@ -35,8 +35,9 @@ type Thread struct {
 	low     bool
 	cname   string // canonical name: parent.cname + "." + spawn index
 	nspawn  int
-	idx     int            // number of events executed
-	vc      map[string]int // vector clock
+	idx     int    // number of events executed
+	ci      int32  // interned canonical name
+	vc      vclock // vector clock
 	id      int
 	name    string
 	gate    chan bool // true => exit (release)
@@ -67,9 +68,49 @@ type VTimer struct {
 }
 
 type objClock struct {
-	w map[string]int // clock of last write
-	r map[string]int // join of reads since last write
+	w vclock // clock of last write
+	r vclock // join of reads since last write
 }
+
+// vclock is a vector clock indexed by the interned canonical thread name, so that the same
+// logical thread has the same index in every execution.
+type vclock []int32
+
+var (
+	internIDs  = map[string]int32{}
+	internHash []uint64
+)
+
+func internName(s string) int32 {
+	if id, ok := internIDs[s]; ok {
+		return id
+	}
+	id := int32(len(internHash))
+	internIDs[s] = id
+	internHash = append(internHash, hashStr(s))
+	return id
+}
+
+func (v *vclock) set(i int32, x int32) {
+	for int(i) >= len(*v) {
+		*v = append(*v, 0)
+	}
+	(*v)[i] = x
+}
+
+func (v *vclock) join(o vclock) {
+	for len(*v) < len(o) {
+		*v = append(*v, 0)
+	}
+	d := *v
+	for i, x := range o {
+		if d[i] < x {
+			d[i] = x
+		}
+	}
+}
+
+func (v vclock) clone() vclock { return append(vclock(nil), v...) }
 
 // Failure is one violated oracle clause in one execution.
 type Failure struct {
@@ -131,14 +172,6 @@ func hashStr(s string) uint64 {
 	return h
 }
 
-func joinInto(dst, src map[string]int) {
-	for k, v := range src {
-		if dst[k] < v {
-			dst[k] = v
-		}
-	}
-}
-
 // ordinal of an object within the execution (addresses differ between executions)
 func (ex *Exec) ord(obj uintptr) int {
 	if obj == 0 {
@@ -156,33 +189,34 @@ func (ex *Exec) ord(obj uintptr) int {
 }
 
 // account records the event a thread is about to execute in the happens-before partial order.
-func (ex *Exec) account(cname string, vc map[string]int, idx int, op OpKind, obj uintptr) {
+func (ex *Exec) account(ci int32, vc *vclock, idx int, op OpKind, obj uintptr) {
 	if ex.objVC == nil {
 		ex.objVC = map[uintptr]*objClock{}
 	}
-	vc[cname] = idx
+	vc.set(ci, int32(idx))
 	if obj != 0 {
 		o := ex.objVC[obj]
 		if o == nil {
-			o = &objClock{w: map[string]int{}, r: map[string]int{}}
+			o = &objClock{}
 			ex.objVC[obj] = o
 		}
 		if op == OpLoad {
-			joinInto(vc, o.w)
-			joinInto(o.r, vc)
+			vc.join(o.w)
+			o.r.join(*vc)
 		} else {
-			joinInto(vc, o.w)
-			joinInto(vc, o.r)
-			o.w = make(map[string]int, len(vc))
-			joinInto(o.w, vc)
-			o.r = map[string]int{}
+			vc.join(o.w)
+			vc.join(o.r)
+			o.w = append(o.w[:0], *vc...)
+			o.r = o.r[:0]
 		}
 	}
 	var hv uint64
-	for k, v := range vc {
-		hv += hash64(hashStr(k), uint64(v))
+	for k, v := range *vc {
+		if v != 0 {
+			hv += hash64(internHash[k], uint64(v))
+		}
 	}
-	ex.fp += hash64(hashStr(cname), uint64(idx), hv, uint64(op))
+	ex.fp += hash64(internHash[ci], uint64(idx), hv, uint64(op))
 }
 
 var (
@@ -247,11 +281,11 @@ func Go(fn func()) {
 }
 
 func (ex *Exec) spawn(name string, fn func()) *Thread {
-	nt := &Thread{id: len(ex.threads), name: name, gate: make(chan bool), ex: ex, op: OpStart, vc: map[string]int{}}
+	nt := &Thread{id: len(ex.threads), name: name, gate: make(chan bool), ex: ex, op: OpStart}
 	if parent := ex.current; parent != nil && lookup() == parent {
 		parent.nspawn++
 		nt.cname = fmt.Sprintf("%s.%d", parent.cname, parent.nspawn)
-		joinInto(nt.vc, parent.vc)
+		nt.vc = parent.vc.clone()
 	} else {
 		ex.nroot++
 		nt.cname = fmt.Sprintf("r%d", ex.nroot)
@@ -262,6 +296,7 @@ func (ex *Exec) spawn(name string, fn func()) *Thread {
 	if name == "" {
 		nt.name = nt.cname
 	}
+	nt.ci = internName(nt.cname)
 	ex.threads = append(ex.threads, nt)
 	ready := make(chan struct{})
 	ex.wg.Add(1)
@@ -423,7 +458,8 @@ func (ex *Exec) fire(tm *VTimer) {
 	}
 	tm.Armed = false
 	ex.TimerFires++
-	ex.account(fmt.Sprintf("T%d", tm.seq), map[string]int{}, 1, OpTimer, 0)
+	var tvc vclock
+	ex.account(internName(fmt.Sprintf("T%d", tm.seq)), &tvc, 1, OpTimer, 0)
 	tm.Fire()
 	chanEpoch++
 }
@@ -441,6 +477,8 @@ var watchdog = 30 * time.Second
 // thread is enabled and no timer within the horizon is armed.
 func (ex *Exec) Run() {
 	prev := -1
+	wd := time.NewTimer(watchdog)
+	defer wd.Stop()
 	for {
 		cs, nThreads, def, prevEn := ex.candidates(prev)
 		if len(cs) == 0 {
@@ -481,7 +519,7 @@ func (ex *Exec) Run() {
 		ex.steps = append(ex.steps, st)
 		ex.current = t
 		t.idx++
-		ex.account(t.cname, t.vc, t.idx, t.op, t.obj)
+		ex.account(t.ci, &t.vc, t.idx, t.op, t.obj)
 		if ex.cache != nil && !ex.setup && i >= len(ex.prefix) && !ex.Pruned {
 			key := ex.fp ^ hashStr(t.cname)*31 ^ uint64(ex.Now)*1000003
 			budget := ex.Bound - ex.used
@@ -495,9 +533,16 @@ func (ex *Exec) Run() {
 			}
 		}
 		t.gate <- false
+		if !wd.Stop() {
+			select {
+			case <-wd.C:
+			default:
+			}
+		}
+		wd.Reset(watchdog)
 		select {
 		case <-ex.parked:
-		case <-time.After(watchdog):
+		case <-wd.C:
 			buf := make([]byte, 1<<18)
 			n := runtime.Stack(buf, true)
 			fmt.Fprintln(os.Stderr, "WATCHDOG: thread "+t.name+" did not reach a point\n"+string(buf[:n]))
